@@ -29,7 +29,8 @@ REPO_MODULE_NAMES = [
 
 VALUE_SHADOWS = dict(int=core.P_int, bool=core.P_bool, bytes=core.P_bytes,
                      bytearray=core.P_bytearray, min=core.p_min, max=core.p_max,
-                     ord=core.p_ord, chr=sstr.p_chr, str=sstr.P_str, set=symcoll.SymSet)
+                     ord=core.p_ord, chr=sstr.p_chr, str=sstr.P_str, set=symcoll.SymSet,
+                     memoryview=core.p_memoryview)
 
 _state = {"mods": None, "conv": None, "real_struct": {}, "real_env": {}, "sym_on": False}
 
